@@ -48,7 +48,7 @@ func rejectKind(g *Guard, drawBlock *ssa.BasicBlock) (kind string, detail string
 		last := b.Instrs[len(b.Instrs)-1]
 		switch x := last.(type) {
 		case *ssa.Return:
-			res := x.Results
+			res := retVals(x)
 			if len(res) == 0 {
 				return "return", ""
 			}
@@ -85,8 +85,36 @@ func rejectKind(g *Guard, drawBlock *ssa.BasicBlock) (kind string, detail string
 		}
 		break
 	}
-	if drawBlock != nil && reachableBlocks(g.Reject)[drawBlock] {
+	reach := reachableBlocks(g.Reject)
+	if drawBlock != nil && reach[drawBlock] {
 		return "restart", ""
+	}
+	// the reject arm does some work (a wipe loop, a release) before leaving: every way out of it must be an error return
+	nret, allErr := 0, true
+	for rb := range reach {
+		switch x := rb.Instrs[len(rb.Instrs)-1].(type) {
+		case *ssa.Return:
+			nret++
+			res := retVals(x)
+			if len(res) == 0 {
+				allErr = false
+				continue
+			}
+			errv := res[len(res)-1]
+			if !isErrorType(errv.Type()) || !(provablyNonNilError(errv, tested) || isErrExtract(errv)) {
+				allErr = false
+				continue
+			}
+			for _, o := range res[:len(res)-1] {
+				if !isNilConst(o) && !isFalseConst(o) {
+					allErr = false
+				}
+			}
+		case *ssa.Panic:
+		}
+	}
+	if nret > 0 && allErr {
+		return "error", ""
 	}
 	return "continues", "reject arm neither returns nor restarts the draw"
 }
